@@ -50,7 +50,18 @@ pub fn datasets(tier: &str) -> Vec<(String, Vec<(usize, Row)>)> {
             planner.push(mk(400 + j as i64 * 10 + i, cx, 1 + j as i64 * 4 + i, -(i as f64), &format!("a{j}{i}"), Some(-1 - i), 1700002000 + j as i64 * 10 + i));
         }
     }
-    let mut out = vec![("seven".to_string(), base.clone()), ("thirty".to_string(), many), ("bigkeys".to_string(), big), ("planner72".to_string(), planner)];
+    // 160 rows of one context: with 4 rows per zone, 39 zones {10j..10j+3} and, in the middle, one zone
+    // {1, 900, 1, 901} whose smallest key is repeated and whose other keys exceed every other zone's:
+    // a per-zone summary of the key range that loses the minimum makes the zone plan skip the zone
+    let mut ladder: Vec<(usize, Row)> = Vec::new();
+    for j in 0..40i64 {
+        let keys: [i64; 4] = if j == 20 { [1, 900, 1, 901] } else { [10 * (j + 1), 10 * (j + 1) + 1, 10 * (j + 1) + 2, 10 * (j + 1) + 3] };
+        for (i, k) in keys.iter().enumerate() {
+            let id = 500 + j * 4 + i as i64;
+            ladder.push(mk(id, "c0", *k, (*k as f64) / 2.0, &format!("w{:04}", k), Some(-*k), 1700004000 + *k));
+        }
+    }
+    let mut out = vec![("seven".to_string(), base.clone()), ("thirty".to_string(), many), ("bigkeys".to_string(), big), ("planner72".to_string(), planner), ("ladder160".to_string(), ladder)];
     if tier != "quick" {
         out.push(("first3".to_string(), base[..3].to_vec()));
         out.push(("one".to_string(), base[..1].to_vec()));
@@ -258,12 +269,14 @@ pub fn check(tier: &str) -> i32 {
     };
     let layouts = vec![Layout::Mem, Layout::FlushEnd, Layout::FlushEach, Layout::FlushEvery2, Layout::Compact1, Layout::Mixed, Layout::MixedDeep, Layout::RestartSeg];
     let cfgs = if tier == "quick" {
-        vec![SysConfig { fill_factor: 8, event_per_zone: 2, ..Default::default() }, SysConfig { fill_factor: 8, event_per_zone: 1, shards: 3, ..Default::default() }]
+        vec![SysConfig { fill_factor: 8, event_per_zone: 2, ..Default::default() }, SysConfig { fill_factor: 8, event_per_zone: 1, shards: 3, ..Default::default() }, SysConfig { fill_factor: 10, event_per_zone: 4, ..Default::default() }]
     } else {
         vec![
             SysConfig { fill_factor: 8, event_per_zone: 2, ..Default::default() },
             SysConfig { fill_factor: 8, event_per_zone: 1, shards: 3, ..Default::default() },
             SysConfig { fill_factor: 8, event_per_zone: 3, shards: 2, ..Default::default() },
+            SysConfig { fill_factor: 10, event_per_zone: 4, ..Default::default() },
+            SysConfig { fill_factor: 40, event_per_zone: 4, ..Default::default() },
         ]
     };
     let spec = Spec {
